@@ -183,8 +183,8 @@ func genCase(rt *rapid.T) *Case {
 		eff = rp.Pick(rt, "effType", "ca", "tsa")
 	}
 	suspicious := !validType(typ) || nonPlainKind(nameKind)
-	shape := "dir"
-	if x := rapid.IntRange(0, 19).Draw(rt, "shape"); (suspicious && x < 2) || (!suspicious && x < 5) {
+	shape := "dir" // rapid favours small values: the odd shapes sit at the high end on purpose
+	if x := rapid.IntRange(0, 19).Draw(rt, "shape"); (suspicious && x >= 18) || (!suspicious && x >= 14) {
 		shape = rp.Pick(rt, "oddShape", "symlink", "symlink", "symlink", "file", "absent", "absent")
 	}
 	suspicious = suspicious || shape == "symlink"
